@@ -367,12 +367,36 @@ func (c *Ctx) reconnectRetry() {
 	if f == nil {
 		return
 	}
-	calls := callsTo(f, modPath+"/liteclient.Connection.setupEncryptedConnection")
-	if len(calls) != 1 || !inLoop(calls[0].Block()) {
+	all := callsTo(f, modPath+"/liteclient.Connection.setupEncryptedConnection")
+	// the attempts: one call inside the retry loop, possibly preceded by a first attempt in front of it
+	// (err := setup(); for err != nil { ...; err = setup() })
+	var calls, primes []*ssa.Call
+	for _, x := range all {
+		if inLoop(x.Block()) {
+			calls = append(calls, x)
+		} else {
+			primes = append(primes, x)
+		}
+	}
+	okPrime := len(primes) <= 1
+	for _, pr := range primes {
+		if len(calls) == 1 && !pr.Block().Dominates(calls[0].Block()) {
+			okPrime = false
+		}
+	}
+	if len(calls) != 1 || !okPrime {
 		c.bad(R, "reconnect retries setupEncryptedConnection in a loop", f.Pos(), fmt.Sprintf("reconnect has %d setupEncryptedConnection call(s) in a retry loop; the confirmed shape is one call inside a loop", len(calls)))
 		return
 	}
 	cl := calls[0]
+	isAttempt := func(v ssa.Value) bool {
+		for _, x := range all {
+			if v == ssa.Value(x) {
+				return true
+			}
+		}
+		return false
+	}
 	okCtx := true
 	why := ""
 	derivesFrom(cl.Call.Args[1], func(v ssa.Value) bool {
@@ -431,7 +455,7 @@ func (c *Ctx) reconnectRetry() {
 				if isNil, eq := nilTest(iff.Cond, nil); isNil {
 					_ = eq
 				}
-				if bo, ok := iff.Cond.(*ssa.BinOp); ok && isNilConst(bo.Y) && derivesFrom(bo.X, func(v ssa.Value) bool { return v == ssa.Value(cl) }, false) {
+				if bo, ok := iff.Cond.(*ssa.BinOp); ok && isNilConst(bo.Y) && derivesFrom(bo.X, isAttempt, false) {
 					// err != nil: exit must be the false edge; err == nil: the true edge
 					if (bo.Op == token.NEQ && i == 1) || (bo.Op == token.EQL && i == 0) {
 						good = true
@@ -849,9 +873,11 @@ func (c *Ctx) connectionDispatch() {
 			okv := false
 			for _, ft := range factsAt(f, cl.Block()) {
 				if bo, ok := ft.Cond.(*ssa.BinOp); ok && (bo.Op == token.EQL || bo.Op == token.NEQ) {
-					if k, ok := constInt(bo.Y); ok && k == kc {
-						if _, fn, ok := fieldOfLoad(bo.X); ok && fn == "status" && (bo.Op == token.NEQ) == ft.Truth {
-							okv = true
+					for _, pr := range [][2]ssa.Value{{bo.X, bo.Y}, {bo.Y, bo.X}} {
+						if k, ok := constInt(pr[1]); ok && k == kc {
+							if _, fn, ok := fieldOfLoad(pr[0]); ok && fn == "status" && (bo.Op == token.NEQ) == ft.Truth {
+								okv = true
+							}
 						}
 					}
 				}
